@@ -139,3 +139,18 @@ class LineHooks(Hooks):
                 and cls.applies_definitions:
             return getattr(record_table(self.repo, cls), attr)
         return NotImplemented
+
+    def order(self, ev, op, a, b):
+        """LastPos is totally ordered by its value (functools.total_ordering
+        over __lt__/__eq__)"""
+        def val(x):
+            if isinstance(x, Abs) and x.cls is self.LastPos:
+                return x.attrs.get("value")
+            if isinstance(x, int):
+                return x
+            return None
+        va, vb = val(a), val(b)
+        if va is None or vb is None:
+            return NotImplemented
+        return {_ast.Gt: va > vb, _ast.Lt: va < vb, _ast.GtE: va >= vb,
+                _ast.LtE: va <= vb}.get(type(op), NotImplemented)
